@@ -62,10 +62,7 @@ func probeImage(dir string) []Resp {
 			}
 		}()
 		e := NewEmu(bttest.LeveldbDiskStorage{Root: cp, ErrLog: func(error, string) {}})
-		defer func() {
-			defer func() { _ = recover() }()
-			e.v.Close()
-		}()
+		defer closeEmu(e)
 		for _, n := range diskNames {
 			out = append(out, e.ExecFast(Call{Req: Req{Kind: "get", Table: n}}), e.ExecFast(Call{Req: Req{Kind: "read", Table: n}}))
 		}
@@ -172,10 +169,7 @@ func runDiskCase(segs [][]Call, tag string) *DiskCase {
 			o.After = probeImage(dir)
 			seg.Obs = append(seg.Obs, o)
 		}
-		func() {
-			defer func() { _ = recover() }()
-			e.v.Close() // clean stop; the next segment starts a new server on the same directory
-		}()
+		closeEmu(e)
 		c.Segs = append(c.Segs, seg)
 	}
 	return c
